@@ -328,6 +328,7 @@ class Interp(Hooks):
         self.solution_tracks = self.env.get("tracks", "").endswith("SolutionTracks")
         self._live: dict[int, dict[int, set[str]]] = {}
         self.inlined_functions: set[str] = set()
+        self.bool_defs: dict[str, ast.expr] = {}
         self.site0 = None
         self.opaque_calls: dict[str, int] = {}
 
@@ -571,6 +572,8 @@ class Interp(Hooks):
                     return "pred1(" + b[len("preds("):]
                 if b.startswith("succs("):
                     return "succ1(" + b[len("succs("):]
+                if b.startswith("in_edges("):
+                    return self._index(b, 0, d)
                 return f"next({', '.join(a)})"
             if fn.id == "len" and len(a) == 1:
                 b = a[0]
@@ -719,6 +722,8 @@ class CondMixin:
                 a, b = p[1][:2]
                 return self._edge_known(a, b, d)
             return None
+        if isinstance(e, ast.Name) and d.vars.get(f"__bdef.{e.id}") == str(d.epoch) and e.id in self.bool_defs:
+            return self.decide(self.bool_defs[e.id], d)
         t = self.term(e, d)
         if t == "True":
             return True
@@ -886,6 +891,20 @@ class CondMixin:
                     d.add("noedge", a, b)
             elif p and p[0] == "at_time" and not outcome:
                 d.add("notattime", p[1][0], p[1][1])
+            return
+        if isinstance(e, ast.Name) and d.vars.get(f"__bdef.{e.id}") == str(d.epoch) and e.id in getattr(self, "bool_defs", {}):
+            inner = self.bool_defs[e.id]
+            if isinstance(inner, ast.BoolOp):
+                # a conjunction that holds / a disjunction that fails fixes every operand
+                if isinstance(inner.op, ast.And) and outcome:
+                    for v in inner.values:
+                        self.learn(v, True, d)
+                elif isinstance(inner.op, ast.Or) and not outcome:
+                    for v in inner.values:
+                        self.learn(v, False, d)
+            else:
+                self.learn(inner, outcome, d)
+            d.add("truthy" if outcome else "falsy", self.term(e, d))
             return
         if not (isinstance(e, ast.Compare) and len(e.ops) == 1):
             t = self.term(e, d)
@@ -1426,6 +1445,10 @@ class Engine(CondMixin, Interp):
         # bind parameters
         params = list(callee.params)
         bound: dict[str, str] = {}
+        # calls nested in the argument expressions that were not inlined still have their effects
+        for a_ in list(call.args) + [k.value for k in call.keywords]:
+            for c2 in calls_in(a_):
+                self.call_effect(st, c2)
         is_method = callee.cls is not None and "staticmethod" not in callee.decorators()
         recv = None
         if cls is not None:
@@ -1491,8 +1514,8 @@ class Engine(CondMixin, Interp):
                 if cls is not None:
                     for kk in [kk for kk in d2.vars if kk.startswith(recv + ".")]:
                         del d2.vars[kk]
-                self._drop_prefix(st2, prefix)
                 d2.vars[tmp] = ret
+                self._drop_prefix(st2, prefix)
                 if ret and ret.startswith("obj") is False and parse_call_term(ret) is None:
                     pass
                 outs.append((st2, "next", tmp))
@@ -1725,6 +1748,11 @@ def _engine_transfer(self: Engine, st: PState, stmt: ast.stmt, _ret: bool) -> No
     if isinstance(stmt, ast.Assign):
         for t in stmt.targets:
             self.bind_target(t, value_term, st)
+            if isinstance(t, ast.Name) and isinstance(stmt.value, (ast.Compare, ast.BoolOp)) or (
+                isinstance(t, ast.Name) and isinstance(stmt.value, ast.UnaryOp) and isinstance(stmt.value.op, ast.Not)
+            ):
+                self.bool_defs[t.id] = stmt.value
+                d.vars[f"__bdef.{t.id}"] = str(d.epoch)
     elif isinstance(stmt, ast.AnnAssign) and stmt.value is not None:
         self.bind_target(stmt.target, value_term, st)
     elif isinstance(stmt, ast.AugAssign):
